@@ -3,8 +3,8 @@
    native functions: the models of Element::{decompress, compress_to_field, elligator_map} (Model/Decaf.v),
    instantiated with the out-of-circuit square root the gadgets call (ark_sr). *)
 Require Import ZArith List Bool.
-From D377 Require Import Base.Certs Base.ZpField Base.FieldSec Base.Fields Model.Decaf Model.Gadgets Model.Concrete.
-From D377 Require Import Spec.Edwards Spec.DecafSpec Proofs.Instance Proofs.Final Proofs.GadgetProofs.
+From D377 Require Import Base.Certs Base.ZpField Base.FieldSec Base.Fields Model.Decaf Model.Gadgets Model.Wrapper Model.Concrete.
+From D377 Require Import Spec.Edwards Spec.DecafSpec Proofs.Instance Proofs.Final Proofs.GadgetProofs Proofs.WrapperProofs Proofs.Codec Proofs.EdwardsLaw.
 Local Existing Instance FqF.
 
 Definition g_decode_honest := @decode_honest FqF ark_D ark_ZETA fq_neg ark_sr.
@@ -41,3 +41,39 @@ Theorem C13_lazy_once : forall st ops,
 Proof. exact lazy_events_once. Qed.
 Theorem C13_lazy_idempotent : forall st o, lazy_step (fst (lazy_step st o)) o = (fst (lazy_step st o), nil).
 Proof. exact lazy_force_idem. Qed.
+
+(* ---- histories on one ElementVar (Model/Wrapper.v: cache state WITH values; += -= double_in_place negate + - select
+   clone, compress_to_field, value, in any order) against the same history on a native group element ---- *)
+Definition w_run := @wrun FqF fq_a ark_D ark_ZETA fq_neg ark_sr.
+Definition w_inv := @winv FqF ark_D fq_neg ark_sr.
+Definition w_abs := @wabs FqF ark_D fq_neg ark_sr.
+Definition w_op_ok := @op_ok FqF ark_D.
+Definition n_enc (p : apt) : Fq := n_encode (of_affine p).
+Definition n_run := @nrun FqF (ed_add fq_a ark_D) (@ed_neg FqF) n_enc.
+(* a variable that starts on the curve, or from a decodable encoding (with a cache that agrees with its element):
+   all constraints stay satisfied, the variable denotes the native result, every value read is the native value *)
+Theorem C13_history : forall ops w, w_inv (snd w) -> Forall w_op_ok ops ->
+  fst (fst (w_run w ops)) = fst w /\ w_inv (snd (fst (w_run w ops))) /\
+  w_abs (snd (fst (w_run w ops))) = fst (n_run (w_abs (snd w)) ops) /\
+  snd (w_run w ops) = snd (n_run (w_abs (snd w)) ops).
+Proof.
+  exact (@wrun_refines FqF ark_D ark_ZETA fq_neg ark_sr ark_sr_contract zeta_ns fq_neg0 fq_neg_opp fq_two_nz d_ns amd_ns m1_sq).
+Qed.
+(* forcing the encoding / the element / reading / cloning, in any order and any number of times, changes no value *)
+Theorem C13_forcing_changes_no_value : forall ops w, w_inv (snd w) -> forallb (@is_force FqF) ops = true ->
+  w_abs (snd (fst (w_run w ops))) = w_abs (snd w) /\ fst (fst (w_run w ops)) = fst w.
+Proof.
+  exact (@forcing_changes_no_value FqF ark_D ark_ZETA fq_neg ark_sr ark_sr_contract zeta_ns fq_neg0 fq_neg_opp fq_two_nz d_ns amd_ns m1_sq).
+Qed.
+(* completeness the other way: a variable allocated from a non-decodable field element is unsatisfied as soon as
+   any operation needs its element *)
+Theorem C13_invalid_encoding_unsat : forall s ops b, n_decode s = None -> existsb (@needs_elt FqF) ops = true ->
+  fst (fst (w_run (b, WEnc s) ops)) = false.
+Proof. exact (@invalid_encoding_unsat FqF ark_D ark_ZETA fq_neg ark_sr ark_sr_contract). Qed.
+(* non-vacuity: the all-zero encoding and the identity point satisfy the invariant *)
+Example C13_history_nonvacuous : w_inv (WEnc zero) /\ w_inv (WElt (mkapt zero one)).
+Proof.
+  split.
+  - exists identity. unfold n_decode. exact (@Codec.decode_zero FqF ark_D fq_neg ark_sr fq_neg0 ark_sr_11).
+  - exact (@EdwardsLaw.ed_zero_on_curve FqF fq_a ark_D).
+Qed.
